@@ -25,7 +25,7 @@ from dsmc.sched import Execution, Explorer
 from dsmc.tables import row, schema
 
 APIS = ["scan", "scan_parallel", "scan_filter", "scan_batches", "iter_records", "row_count"]
-WRITERS = ["append", "append2tx", "delete_file", "rollback", "failed_commit"]
+WRITERS = ["append", "append2tx", "delete_file", "replace", "rollback", "failed_commit"]
 
 
 def build_template(w: TableWorld) -> None:
@@ -92,12 +92,16 @@ class C02World(TableWorld):
         super().__init__(backend, "separate", n_readers + len(writers), build_template, name="c02")
         self.api, self.writers, self.n_readers = api, writers, n_readers
         self.rep, self.cfg = rep, cfg
+        self.prelude = cfg.get("reader_prelude")
         self.reads: Dict[str, List[Tuple[int, int, Any]]] = {}
         self.outcomes: Dict[Any, int] = {}
         self.faults: List[_PointerFault] = []
-        for i, wop in enumerate(writers):
-            if wop == "failed_commit":
-                f = _PointerFault(f"W{i}")
+        fault_actors = [f"W{i}" for i, wop in enumerate(writers) if wop == "failed_commit"]
+        if self.prelude == "failed_commit":
+            fault_actors.append("R0")
+        for fa in fault_actors:
+            if True:
+                f = _PointerFault(fa)
                 self.faults.append(f)
                 if backend == "local":
                     ENV.hooks.append(f)
@@ -117,6 +121,7 @@ class C02World(TableWorld):
     def reset(self) -> None:
         super().reset()
         self.reads = {}
+        self.prelude_result = None
 
     def actors(self):
         out = []
@@ -132,6 +137,13 @@ class C02World(TableWorld):
 
         def body():
             log = self.reads.setdefault(name, [])
+            if self.prelude == "failed_commit" and r == 0:
+                # the SAME handle first attempts a commit that fails at the pointer write, then reads
+                try:
+                    t.append_records([row(90)])
+                    self.prelude_result = "ok"
+                except Exception as e:  # noqa
+                    self.prelude_result = type(e).__name__
             for _ in range(2):
                 a = len(self.publish_log)
                 res = _read(t, self.api)
@@ -155,6 +167,11 @@ class C02World(TableWorld):
             if wop == "delete_file":
                 with t.new_transaction() as tx:
                     tx.delete_files(["/" + files[-1]])
+                    return tx.commit()
+            if wop == "replace":
+                with t.new_transaction() as tx:
+                    tx.delete_files(["/" + files[-1]])
+                    tx.append_data([row(50 + i)])
                     return tx.commit()
             if wop == "rollback":
                 tx = t.new_transaction().begin()
@@ -205,11 +222,19 @@ class C02World(TableWorld):
                     problems.append(f"{rname} read #{k} ({self.api}) {why}: got {res!r}, interval [{ia},{ib}], floor {lo}")
                 else:
                     lo = match
+        pubs = [a for a, _b in self.publish_log]
         for i, wop in enumerate(self.writers):
             w = acts[f"W{i}"]
             kind, val = outcome_of(w)
             if wop == "failed_commit" and kind == "ok":
                 problems.append(f"W{i} commit with a failing pointer write reported success")
+            n = pubs.count(f"W{i}")
+            want = 1 if (kind == "ok" and val is True and wop not in ("rollback", "failed_commit")) else 0
+            if n != want:
+                problems.append(f"W{i} ({wop}, outcome {kind}:{val}) advanced the pointer {n} times: a transaction must "
+                                f"become visible all at once ({want} expected)")
+        if self.prelude == "failed_commit" and pubs.count("R0"):
+            problems.append("R0's failing commit advanced the pointer")
         okey = (len(self.publish_log), tuple(sorted((n, tuple((a, b) for a, b, _ in v)) for n, v in self.reads.items())))
         self.outcomes[okey] = self.outcomes.get(okey, 0) + 1
         rep.nontrivial((self.cfg["id"], okey))
@@ -262,10 +287,11 @@ def run_config(cfg: Dict[str, Any]) -> Dict[str, Any]:
 def configs(tier: str, seed: int) -> List[Dict[str, Any]]:
     out = []
 
-    def add(backend, api, writers, readers=1, bound=None, sample=False):
-        cid = f"{backend}/{api}/{'+'.join(writers)}/r{readers}" + (f"/b{bound}" if bound is not None else "")
+    def add(backend, api, writers, readers=1, bound=None, sample=False, prelude=None):
+        cid = f"{backend}/{api}/{'+'.join(writers)}/r{readers}" + (f"/b{bound}" if bound is not None else "") \
+            + (f"/same-handle-{prelude}" if prelude else "")
         out.append({"id": cid, "backend": backend, "api": api, "writers": list(writers), "readers": readers,
-                    "bound": bound, "tier": tier, "seed": seed, "sample": sample})
+                    "bound": bound, "tier": tier, "seed": seed, "sample": sample, "reader_prelude": prelude})
 
     k = seed
     for api in APIS:
@@ -276,6 +302,9 @@ def configs(tier: str, seed: int) -> List[Dict[str, Any]]:
             else:
                 add("s3", api, (wop,), sample=(api == "scan" and wop == "append"))
                 add("local", api, (wop,))
+    # a handle whose own commit failed at the pointer write, then reads while another handle commits
+    for k2, api in enumerate(APIS if tier != "quick" else ("scan", "row_count", "scan_batches")):
+        add(("local", "s3")[k2 % 2], api, ("append",), prelude="failed_commit", bound=None if tier != "quick" else 2)
     if tier == "quick":
         add("s3", "scan", ("append", "delete_file"), bound=1)
     else:
